@@ -352,6 +352,7 @@ class C13(engine.Property):
         "are enumerated exhaustively (N<=32) or first/last 8 + 16 seeded positions",
     ]
     expected_probes = [
+        "mutator-cut-short-by-a-user-override-before-the-reads",
         "user-attribute-with-two-leading-underscores",
         "one-shot-iterator-as-attribute-value",
         "entry:neighbors",
@@ -403,6 +404,13 @@ class C13(engine.Property):
         cfg["result_filters"] = [None, "accept", "even", "reject"]
         cfg["p_more_mutation"] = rng.choice([0.0, 0.15, 0.3])
         cfg["p_odd_attrs"] = rng.choice([0.0, 0.3, 0.6])
+        if rng.random() < 0.15:
+            # an edge class whose add_vertex override raises for some vertices:
+            # Vertex.add_to_link is cut short and the vertex keeps listing an
+            # edge that does not name it -- a reachable state read-only calls
+            # must leave as it is, too
+            cfg["edge_classes"] = sorted(set(cfg["edge_classes"]) | {"BrittleEdge"})
+            cfg["weights"]["add_to_link"] = max(cfg["weights"].get("add_to_link", 0), 4)
         return cfg
 
     def start(self, cfg):
@@ -444,7 +452,13 @@ class C13(engine.Property):
             if "ff" not in op and rng.random() < 0.7:
                 op["ff"] = rng.choice(["accept", "even", "dironly", "reject"])
         elif kind == "find_links":
-            op = st.gen.g_find_links(rng, view, st.namer)
+            # prefer a vertex that lists a link which does not name it
+            odd = [
+                lab
+                for lab, d in view.snap.items()
+                if any(lab not in view.snap.get(l, {}).get("ends", ()) for l in d.get("links", ()))
+            ]
+            op = st.gen.g_find_links(rng, view, st.namer, focus=odd)
             if op is None:
                 return None
             if "ff" not in op and rng.random() < 0.7:
@@ -489,10 +503,27 @@ class C13(engine.Property):
     # -- execution -------------------------------------------------------------------------
     def execute(self, st, op):
         if op["op"] != "enumerate":
+            if getattr(st, "dangling", False):
+                # a vertex lists a link that does not name it (a user override
+                # raised in mid-call): the link cannot tell that vertex about
+                # later changes, so what its memo holds after another mutation
+                # is nobody's fault.  Reads go on; mutations do not.
+                st.stats["note:mutation-skipped:a-vertex-lists-a-link-that-omits-it"] += 1
+                return None, None
             out = st.ex.apply(op)
             if out is None:
                 return None, None
             st.stats["op:" + op["op"]] += 1
+            if out.get("exc") == "InjectedFault":
+                st.stats["probe:mutator-cut-short-by-a-user-override-before-the-reads"] += 1
+                st.stats["fault:exception-out-of-subclass-override"] += 1
+                snap = st.ex.w.snapshot()
+                if any(
+                    lab not in snap.get(l, {}).get("ends", ())
+                    for lab, d in snap.items()
+                    for l in d.get("links", ())
+                ):
+                    st.dangling = True
             for name, val in (op.get("attrs") or {}).items():
                 if name.startswith("__"):
                     st.stats["probe:user-attribute-with-two-leading-underscores"] += 1
